@@ -1,6 +1,8 @@
 import LJT.Proofs.Bits
 import LJT.Proofs.SeqHuff
 import LJT.Model.T81Enc
+import LJT.Model.Arith
+import LJT.Gen.Tables
 import LJT.Props.C03
 /-! # C04 - emitted streams conform to T.81; conforming streams decode to spec
 
@@ -87,6 +89,11 @@ theorem ac_refine_interval_from_bytes (t : Huff.Tbl) (c : Huff.CDerived) (dd : H
         .ok (blocks.map (ProgAC.news p), 0, List.replicate k true) := by
   obtain ⟨h1, h2⟩ := interval_framing_roundtrip (ProgAC.evBits (C03.codeOf c) (ProgAC.refEv 0 [] blocks))
   exact ⟨_, h2, by rw [h1]; exact C03.ac_refine_scan_roundtrip t c dd hc hd p hp L hL blocks hwf henc _⟩
+
+/-- **The probability estimation table of the arithmetic coder is Table D.3**: the table compiled
+into the library (regenerated on every run) equals, entry by entry, the packed form of the
+specification literal the models use -/
+theorem qm_table_is_table_D3 : Gen.aritab = Arith.qmTable := by decide
 
 /-- non-vacuity: a stuffed 0xFF and an unstuffed byte -/
 example : stuff [0xFF, 0x12] = [0xFF, 0x00, 0x12] ∧ intervalBits (segmentBytes [true, false, true]) = [true, false, true, true, true, true, true, true] := by
